@@ -1,6 +1,6 @@
 (* C15 — Names: validators match their grammar; identity is RFC1459 case-insensitive.
    Only statements here; proofs live in Proofs/. *)
-Require Import Bytes Names NameGrammar NamesProofs.
+Require Import Bytes AMap Names NameGrammar NamesProofs State StateGetters Event SourceEq NamesKeyedProofs.
 
 Theorem C15_nick_exact : forall s, is_valid_nick s = true <-> nick_grammar s.
 Proof. exact is_valid_nick_iff. Qed.
@@ -32,3 +32,24 @@ Theorem C15_fold_table : forall b,
   (b < 65 \/ 94 < b -> fold1 b = b).
 Proof. exact fold1_table. Qed.
 Print Assumptions C15_fold_table.
+
+(* every name-keyed query gives the same answer for any two names with the same fold
+   (LookupUser, LookupChannel, IsInChannel, User.InChannel, Channel.UserIn, Perms.Lookup with
+   and without its ok flag) *)
+Theorem C15_keyed : forall a b, to_rfc1459 a = to_rfc1459 b ->
+  (forall s, g_lookup_user s a = g_lookup_user s b) /\
+  (forall s, g_lookup_channel s a = g_lookup_channel s b) /\
+  (forall s, g_is_in_channel s a = g_is_in_channel s b) /\
+  (forall u, g_user_in_channel u a = g_user_in_channel u b) /\
+  (forall c, g_channel_user_in c a = g_channel_user_in c b) /\
+  (forall u, g_perms_lookup u a = g_perms_lookup u b) /\
+  (forall u, perms_lookup u a = perms_lookup u b).
+Proof. exact keyed_all. Qed.
+Print Assumptions C15_keyed.
+
+(* Source.ID and Source.Equals depend on the name through its fold only *)
+Theorem C15_keyed_source : forall a b, to_rfc1459 a = to_rfc1459 b ->
+  (forall i h i' h', source_id (mkWSource a i h) = source_id (mkWSource b i' h')) /\
+  (forall i h o, source_equals (Some (mkWSource a i h)) o = source_equals (Some (mkWSource b i h)) o).
+Proof. exact keyed_source_all. Qed.
+Print Assumptions C15_keyed_source.
